@@ -66,7 +66,7 @@ func baseVal(r *core.Rand, c model.Col) proto.Val {
 	return proto.Str(longStr(r, r.Intn(6)))
 }
 
-var hazardStrings = []string{"", " ", "'", "\"", "\\", ";", "\n", "\r\n", "\t", "a'b", "a\"b", "it''s", "\\n", "a;b", "--", "/*x*/", "\x00", "a\x00b", "\xff", "\xc3", "\xc3\x28", "\xe2\x82", "é", "日本語", "𝄞", " lead", "trail ", "NULL", "true", "0", "select * from t", "`", "%", "_"}
+var hazardStrings = []string{"", " ", "'", "\"", "\\", ";", "\n", "\r\n", "\t", "a'b", "a\"b", "it''s", "\\n", "a;b", "--", "/*x*/", "\x00", "a\x00b", "\xff", "\xc3", "\xc3\x28", "\xe2\x82", "é", "日本語", "𝄞", " lead", "trail ", "NULL", "true", "0", "select * from t", "`", "%", "_", "it\\'s", "x\\'", "x\\'\\'", "a\\\\b", "\\\\", "say \\\"hi\\\"", "\\'", "\"json\"", "\"", "end\""}
 
 func specialVals(r *core.Rand, c model.Col, caseIdx int) []proto.Val {
 	switch c.Type {
